@@ -12,6 +12,12 @@ Op lines (one case = `init`, then any number of `ls` / `probe` / `put`):
       fault=none|backup|save:<l>|rread|rstore:<l>|haproxy:<r>|clean:<g|um> gate=0|1 corder=g,um|um,g
       [rpos=first|last] probes=a,b              → status=<n> phase=<p> mid=<vec>;<vec> | mid=%e
 
+  hold <put words>                              → parked | (the put's answer, if it ended before its Backup)
+  release                                       → (the held put's answer) | none
+`hold` starts a push and parks it at the first read of its `Backup()` (inside the critical section);
+while it is parked every other push (`put`, must be fault=none gate=0) is answered 226 / phase busy;
+`release` lets it finish. Names may carry up to two directory levels (`f/team/x/a.yaml`).
+
 `rpos` (default first) says where Go's map iteration puts the path of an `rstore:` fault among the
 files `Restore()` writes back: first (nothing else restored) or last (everything else restored).
 The judge evaluates the Spec only for fault plans without a fault inside the restore
@@ -24,9 +30,17 @@ An item token `@` is a value that is not base64.
 -/
 open LunarVerif LunarVerif.Proto LunarVerif.C08
 
+def okSeg (t : String) : Bool :=
+  !t.isEmpty && (t.toList.all fun c => c.isDigit || ('a' ≤ c && c ≤ 'z'))
+
+/-- `[dir/[dir/]]name.yaml`, every component `[a-z0-9]+` (payload names may carry up to two directory levels). -/
 def okName (n : String) : Bool :=
-  n.endsWith ".yaml" && n.length > 5 &&
-  ((n.dropEnd 5).toString.toList.all fun c => c.isDigit || ('a' ≤ c && c ≤ 'z'))
+  match (n.splitOn "/").reverse with
+  | last :: dirs =>
+    last.endsWith ".yaml" && okSeg (last.dropEnd 5).toString && dirs.length ≤ 2 && dirs.all okSeg
+  | [] => false
+
+def nested (n : String) : Bool := (n.splitOn "/").length > 1
 
 def parsePath (s : String) : Option Path :=
   if s == "g" then some .gateway
@@ -51,8 +65,8 @@ def tokIs (pre : Char) (t : String) : Bool :=
   | [] => false
 
 def fileValid : Path × Bytes → Bool
-  | (.flow _, t) => tokIs 'v' t
-  | (.quota _, t) => tokIs 'q' t
+  | (.flow n, t) => nested n || tokIs 'v' t   -- the flows loader globs `*.yaml` of the directory itself only
+  | (.quota n, t) => nested n || tokIs 'q' t  -- the quota loader skips sub-directories too
   | (.gateway, t) => tokIs 'g' t || t == "empty"
   | _ => true
 
@@ -66,7 +80,7 @@ def envMetricsOk (d : Disk) : Bool :=
     | none => false
 
 def envHasEndpoints (d : Disk) : Bool :=
-  d.any fun e => match e.1 with | .flow _ | .quota _ => true | _ => false
+  d.any fun e => match e.1 with | .flow n => !nested n | .quota n => !nested n | _ => false
 
 /-- Map order of `Restore()`: the faulted path first or last, the others in list order. -/
 def restoreOrderOf (fault : Option Step) (first : Bool) (L : List Path) : List Path :=
@@ -101,11 +115,11 @@ def fmtProbe (names : List String) (e : Engine) : String :=
   ",".intercalate (names.map fun n => n ++ "=" ++ verdict (e.probe (.flow (n ++ ".yaml"))))
 
 def fmtPhase : Phase → String
-  | .method => "method" | .decode => "decode" | .nodata => "nodata" | .backup => "backup" | .parse => "parse"
+  | .busy => "busy" | .method => "method" | .decode => "decode" | .nodata => "nodata" | .backup => "backup" | .parse => "parse"
   | .cleanup => "cleanup" | .save => "save" | .reload => "reload" | .ok => "ok"
 
 def parsePhase (s : String) : Option Phase :=
-  [Phase.method, .decode, .nodata, .backup, .parse, .cleanup, .save, .reload, .ok].find? (fun p => fmtPhase p == s)
+  [Phase.busy, .method, .decode, .nodata, .backup, .parse, .cleanup, .save, .reload, .ok].find? (fun p => fmtPhase p == s)
 
 def rank : Path → Nat
   | .flow _ => 0 | .quota _ => 1 | .pparam _ => 2 | .gateway => 3 | .userMetrics => 4 | .defaultMetrics => 5
@@ -199,6 +213,7 @@ def parseEntries (ws : List String) : Option Disk :=
 structure RunSt where
   st : State := ⟨[], .uninit⟩
   live : Bool := false
+  held : Option Put := none
 
 def fmtMid (names : List String) (mid : List Engine) : String :=
   if mid.isEmpty then "%e" else ";".intercalate (mid.map (fmtProbe names))
@@ -220,8 +235,28 @@ def runStep (s : RunSt) (line : String) : RunSt × String :=
     | none => (s, "bad-op")
     | some p =>
       if !s.live then (s, "skip") else
-      let r := handle (mkEnv p.fault p.corder p.rfirst) s.st p.req
+      if s.held.isSome && (p.fault.isSome || p.req.gate) then (s, "bad-op") else
+      let r := handleLocked (mkEnv p.fault p.corder p.rfirst) s.st s.held.isSome p.req
       ({ s with st := r.state },
+       s!"status={r.status} phase={fmtPhase r.phase} mid={fmtMid p.probes r.mid}")
+  | "hold" :: ws =>
+    match parsePut ws with
+    | none => (s, "bad-op")
+    | some p =>
+      if !s.live then (s, "skip") else
+      if s.held.isSome then (s, "bad-op") else
+      -- everything before `Backup()` (method check, JSON decode) happens before the parking point
+      let r := handle (mkEnv p.fault p.corder p.rfirst) s.st p.req
+      if r.phase == .method || r.phase == .decode || r.phase == .nodata then
+        (s, s!"status={r.status} phase={fmtPhase r.phase} mid={fmtMid p.probes r.mid}")
+      else ({ s with held := some p }, "parked")
+  | ["release"] =>
+    if !s.live then (s, "skip") else
+    match s.held with
+    | none => (s, "none")
+    | some p =>
+      let r := handle (mkEnv p.fault p.corder p.rfirst) s.st p.req
+      ({ s with st := r.state, held := none },
        s!"status={r.status} phase={fmtPhase r.phase} mid={fmtMid p.probes r.mid}")
   | _ => (s, "bad-op")
 
@@ -243,6 +278,7 @@ structure JudgeSt where
   bad : Option String := none
   fail : Option String := none
   dead : Bool := false
+  held : Option Put := none
 
 def parseListing (out : String) : Option Disk :=
   if out == "%e" then some [] else parseEntries (words out)
@@ -268,6 +304,17 @@ def evalPending (s : JudgeSt) (p : Pending) (after : Disk) (probesAfter : String
   else
     let fid := match finding o with | some f => f | none => "-"
     { s with fail := some s!"{fid} status={o.status} phase={fmtPhase o.phase} {whichConjunct o}" }
+
+def judgePut (s : JudgeSt) (p : Put) (out : String) : JudgeSt :=
+  -- a fault inside the restore: outside the hypotheses (double fault); nothing to judge from here on
+  if (match p.fault with | some f => f.inRestore | none => false) then { s with dead := true, pending := none } else
+  let ows := words out
+  match kvNat ows "status", (kv ows "phase").bind parsePhase, kv ows "mid", s.lastLs, s.lastProbe with
+  | some st, some ph, some mid, some b, some pb =>
+    { s with pending := some { put := p, before := b, probesBefore := pb, status := st, phase := ph,
+                               mid := if mid == "%e" then [] else mid.splitOn ";" } }
+  | some _, some _, some _, _, _ => { s with pending := none }
+  | _, _, _, _, _ => { s with bad := some ("unparsable-output:" ++ pctEnc out) }
 
 def judgeStep (s : JudgeSt) (op out : String) : JudgeSt :=
   if s.dead || out == "skip" then s else
@@ -298,16 +345,17 @@ def judgeStep (s : JudgeSt) (op out : String) : JudgeSt :=
     if out == "bad-op" then s else
     match parsePut ws with
     | none => { s with bad := some "unparsable-put" }
-    | some p =>
-      -- a fault inside the restore: outside the hypotheses (double fault); nothing to judge from here on
-      if (match p.fault with | some f => f.inRestore | none => false) then { s with dead := true, pending := none } else
-      let ows := words out
-      match kvNat ows "status", (kv ows "phase").bind parsePhase, kv ows "mid", s.lastLs, s.lastProbe with
-      | some st, some ph, some mid, some b, some pb =>
-        { s with pending := some { put := p, before := b, probesBefore := pb, status := st, phase := ph,
-                                   mid := if mid == "%e" then [] else mid.splitOn ";" } }
-      | some _, some _, some _, _, _ => { s with pending := none }
-      | _, _, _, _, _ => { s with bad := some ("unparsable-output:" ++ pctEnc out) }
+    | some p => judgePut s p out
+  | "hold" :: ws =>
+    if out == "bad-op" then s else
+    match parsePut ws with
+    | none => { s with bad := some "unparsable-put" }
+    | some p => if out == "parked" then { s with held := some p } else judgePut s p out
+  | ["release"] =>
+    match s.held with
+    | some p => if out == "none" then { s with bad := some "release-lost-the-held-push" }
+                else judgePut { s with held := none } p out
+    | none => s
   | _ => s
 
 def judgeFinish (s : JudgeSt) : String :=
